@@ -118,7 +118,13 @@ class Raw:
                 continue
             data = pb[off:off + length]
             try:
-                plain = zlib.decompress(data) if comp else data
+                if comp:
+                    dobj = zlib.decompressobj()
+                    plain = dobj.decompress(data)
+                    if not dobj.eof or dobj.unused_data:
+                        probs.append(f'row {hk}: stored length {length} is not exactly one zlib stream')
+                else:
+                    plain = data
             except zlib.error as exc:
                 probs.append(f'row {hk}: stored range does not inflate ({exc})')
                 continue
